@@ -22,9 +22,15 @@ type ctor struct {
 	new  func() bin.Object
 	typ  reflect.Type // struct type (bin.Object is a pointer to it)
 
+	// wrapper: "" for a constructor of the type maps; "vector" / "box" for a generated helper type
+	// without constructor id (XVector{Elems []X}, XBox{X XClass}); boxes have no bare form.
+	wrapper string
+
 	once sync.Once
 	info *typeInfo
 }
+
+func (c *ctor) hasBare() bool { return c.wrapper != "box" }
 
 // key is the stable identifier used in witnesses.
 func (c *ctor) key() string { return c.pkg + "." + c.name }
@@ -102,6 +108,18 @@ func loadRegistry() *registry {
 	add("tg", tg.TypesMap(), tg.TypesConstructorMap())
 	add("mt", mt.TypesMap(), mt.TypesConstructorMap())
 	add("e2e", e2e.TypesMap(), e2e.TypesConstructorMap())
+	// helper types with their own generated Encode/Decode but no constructor id; appended after the
+	// constructors so that nothing chosen by registry order among the constructors changes
+	for _, w := range wrapperTypes {
+		t := reflect.TypeOf(w.new())
+		c := &ctor{pkg: w.pkg, id: bin.TypeVector, name: w.name + "(" + w.kind + ")", new: w.new, typ: t.Elem(), wrapper: w.kind}
+		if w.kind == "box" {
+			c.id = 0
+		}
+		r.ctors = append(r.ctors, c)
+		r.byKey[c.key()] = c
+		r.byType[c.typ] = c
+	}
 	return r
 }
 
